@@ -5,7 +5,7 @@ for f in selfmut/*.diff; do
   b=$(basename $f .diff)
   case $b in
     revert-D1|revert-D6) ids="C05";; revert-D4|revert-D7) ids="C16";; revert-D5) ids="C08";;
-    revert-D2|revert-D3) ids="C14";; revert-D8) ids="C12";;
+    revert-D2|revert-D3) ids="C14";; revert-D8) ids="C12";; revert-D9) ids="C09";;
     c06-*) ids="C06";;
     c07-*) ids="C07";;
     c12-*) ids="C12";; c14-*) ids="C14";; c17-*) ids="C17";; c20-*) ids="C20";; c13-args-*) ids="C13";; c15-*) ids="C15";; c10-shared*) ids="C10";; c16-children*) ids="C16";;
